@@ -111,10 +111,16 @@ FilesConfined(fs, us) == \A f \in fs : f[2] \in us
 Touched(before, after) == (before \ after) \cup (after \ before)
 TargetOwner(e, u) == IF e.op \in {"copy", "rename"} THEN (IF e.admin_api THEN e.new_owner ELSE IF e.op = "copy" THEN u ELSE e.owner)
                      ELSE e.owner
+\* ... by direction: what a copy or a rename (a move) CREATES lies in the directory of the target owner, what a request
+\* removes lies in the directory of the database's (source) owner
 TouchedConfined(e, u, before, after) ==
-  \A f \in Touched(before, after) :
-     \/ e.op = "admin_user_delete" /\ f[2] = e.user
-     \/ e.op # "admin_user_delete" /\ f[2] \in {e.owner, TargetOwner(e, u)}
+  /\ \A f \in after \ before :
+        \/ e.op = "admin_user_delete" /\ f[2] = e.user
+        \/ e.op \in {"copy", "rename"} /\ f[2] = TargetOwner(e, u)
+        \/ e.op \notin {"copy", "rename", "admin_user_delete"} /\ f[2] = e.owner
+  /\ \A f \in before \ after :
+        \/ e.op = "admin_user_delete" /\ f[2] = e.user
+        \/ e.op # "admin_user_delete" /\ f[2] = e.owner
 \* the paths of a database lie in its owner's directory, and no path belongs to two databases
 PathsOf(o, i) == {<<o.dbs[i].paths[j][1], o.dbs[i].paths[j][2]>> : j \in DOMAIN o.dbs[i].paths}
 PathsConfined(o) == \A i \in DOMAIN o.dbs : \A p \in PathsOf(o, i) : p[2] = o.dbs[i].owner
@@ -197,7 +203,9 @@ Effect(e, u, nu, nd, nr) ==
          IF t = k THEN nu = users /\ nd = dbs /\ nr = roles
          ELSE /\ k \in DOMAIN dbs /\ t \notin DOMAIN dbs /\ nu = users
               /\ DOMAIN nd = (DOMAIN dbs \ {k}) \cup {t} /\ SameDbsExcept({k, t}, nd)
-              /\ nd[t] = dbs[k]
+              \* files a `remove` left on disk under the target name are adopted (as by db_add): the audit log may be the
+              \* leftover one
+              /\ IF t \in ghost THEN [nd[t] EXCEPT !.audit = <<>>] = [dbs[k] EXCEPT !.audit = <<>>] ELSE nd[t] = dbs[k]
               /\ SameRolesExcept({k, t}, nr)
               /\ \A r \in DOMAIN roles : <<r[2], r[3]>> = k /\ r[1] # t[1] => (<<r[1], t[1], t[2]>> \in DOMAIN nr /\ nr[<<r[1], t[1], t[2]>>] = roles[r])
     [] OTHER -> FALSE
